@@ -139,7 +139,10 @@ def handle : List Sexp → Option Sexp
         match lazy with
         | .ok (out, b) =>
             pure (.list [.atom "ok", mstreamToSexp out, bufFToSexp b ids, streamToSexp (unmark out),
-                         ofBool (lazySelOk growth (segs ops) (fun _ => []) (markAll s)),
+                         -- the assumption checks of the theorems: `lazySelOk` (per link while it runs) and, when
+                         -- reads come after writes, `traceSelOk` (hypothesis of `lazy_raw_chain_wellnested`)
+                         ofBool (lazySelOk growth (segs ops) (fun _ => []) (markAll s) &&
+                                 (!lazyRaw ops || traceSelOk (segs ops) (fun _ => []) (markAll s))),
                          .atom (if !traceAgrees then "lazy-trace-differs" else if lazyRaw ops then "lazy+trace" else "lazy")])
         | _ => pure (if traceAgrees then .atom "err" else .atom "err-trace-differs")
       else
